@@ -168,6 +168,7 @@ func worker(all []*Scenario, a *Args) int {
 		scn := wheel[k%len(wheel)]
 		seed := mixSeed(a.Seed, k)
 		res := RunOne(scn, a.Tier, seed, NewChoices(seed), false)
+		checkRace(res, scn.Property)
 		g.Runs++
 		g.PerScen[scn.Name]++
 		if res.Harness != "" {
@@ -259,6 +260,7 @@ func replay(all []*Scenario, a *Args) int {
 		return 2
 	}
 	res := RunOne(scn, rf.Tier, rf.Seed, NewReplay(rf.Choices), true)
+	checkRace(res, scn.Property)
 	if a.Out != "" {
 		data, _ := json.Marshal(res)
 		os.WriteFile(a.Out, data, 0o644)
@@ -291,10 +293,14 @@ func selfExe() string {
 	return exe
 }
 
+var spawnCount int
+
 func spawn(a *Args, stdout, stderr *os.File) *exec.Cmd {
 	data, _ := json.Marshal(a)
 	cmd := exec.Command(selfExe(), "-test.run", "^TestSim$", "-test.timeout", "0", "-test.cpu", "1")
-	cmd.Env = append(os.Environ(), "VERIF_ARGS="+string(data), "GOMAXPROCS=1", "GORACE=halt_on_error=1 exitcode=66")
+	spawnCount++
+	raceLog := filepath.Join(os.TempDir(), fmt.Sprintf("verif-race-%d-%d", os.Getpid(), spawnCount))
+	cmd.Env = append(os.Environ(), "VERIF_ARGS="+string(data), "GOMAXPROCS=1", "VERIF_RACE_LOG="+raceLog, "GORACE=log_path="+raceLog+" halt_on_error=0 exitcode=0")
 	cmd.Stdout = stdout
 	cmd.Stderr = stderr
 	return cmd
@@ -514,8 +520,12 @@ func minimiseAndConfirm(a *Args, tmp string, res *Result, run int) (string, erro
 	sa.Mode = "shrink"
 	sa.ReplayFile = raw
 	sa.Out = min
-	cmd := spawn(&sa, nil, os.Stderr)
-	cmd.Run()
+	if !strings.HasPrefix(rf.Class, "race:") {
+		// (the race detector reports each pair of stacks once per process, so a race
+		// cannot be re-observed by in-process replays; it is confirmed in fresh ones)
+		cmd := spawn(&sa, nil, os.Stderr)
+		cmd.Run()
+	}
 	use := raw
 	if _, err := os.Stat(min); err == nil {
 		use = min
